@@ -44,6 +44,7 @@ type Contract struct {
 	Params   []Param // receiver first
 	Results  []Param
 	Props    []string
+	Safety   []string // properties that own the run-time-safety obligations (default: C03 if listed)
 	Requires []*Clause
 	Ensures  []*Clause
 	Assigns  *Clause // nil: no frame given
@@ -67,7 +68,7 @@ type Contract struct {
 
 var keywords = map[string]bool{"func": true, "ext": true, "iface": true, "lemma": true, "spec": true, "props": true,
 	"requires": true, "ensures": true, "assigns": true, "alloc": true, "loop": true, "invariant": true,
-	"decreases": true, "let": true, "trusted": true, "end": true, "opaque": true, "inline": true, "pure": true, "axiom": true}
+	"decreases": true, "let": true, "safety": true, "extinline": true, "trusted": true, "end": true, "opaque": true, "inline": true, "pure": true, "axiom": true}
 
 type rawLine struct {
 	kw   string
@@ -371,6 +372,7 @@ func parseSig(sig string) (recv *Param, name string, params, results []Param, er
 }
 
 type ContractSet struct {
+	ExtInline []string // key prefixes of dependency functions that are inlined from source
 	ByKey   map[string]*Contract
 	All     []*Contract
 	Overlay map[string][]byte
@@ -445,6 +447,10 @@ func ExtractContracts(files []specFile) (*ContractSet, error) {
 			var blocks [][]rawLine
 			var cur []rawLine
 			for _, r := range rl {
+				if r.kw == "extinline" {
+					cs.ExtInline = append(cs.ExtInline, strings.TrimSpace(r.text))
+					continue
+				}
 				if r.kw == "end" {
 					if len(cur) > 0 {
 						blocks = append(blocks, cur)
@@ -574,6 +580,8 @@ func buildContract(b []rawLine, sf specFile, af *ast.File, fd *ast.FuncDecl, fse
 		switch r.kw {
 		case "props":
 			c.Props = append(c.Props, strings.Fields(r.text)...)
+		case "safety":
+			c.Safety = append(c.Safety, strings.Fields(r.text)...)
 		case "requires":
 			c.Requires = append(c.Requires, &Clause{Kind: "requires", Text: r.text, Pos: pos(r), Props: strings.Fields(r.arg)})
 		case "ensures":
